@@ -80,6 +80,7 @@ func c01Seq(tier string) []SeqJob {
 		mkT("seq/long-string-keys-differing-in-the-tail/depth5", "longstring-tail", 5, 40)
 		mkT("seq/long-byte-keys-differing-in-the-tail/depth4", "longbytes-tail", 4, 40)
 		mkT("seq/long-string-keys-differing-in-the-head/depth4", "longstring-head", 4, 40)
+		mkT("seq/byte-keys-built-in-a-reused-buffer/depth4", "bytes-reused", 4, 40)
 	} else {
 		mk("seq/collide/keys1,2/depth9", "collide", []int{1, 2}, 9, 560)
 		mk("seq/collide/keys1,2,3/depth7", "collide", []int{1, 2, 3}, 7, 560)
@@ -87,6 +88,7 @@ func c01Seq(tier string) []SeqJob {
 		mkT("seq/long-string-keys-differing-in-the-tail/depth8", "longstring-tail", 8, 560)
 		mkT("seq/long-byte-keys-differing-in-the-tail/depth7", "longbytes-tail", 7, 560)
 		mkT("seq/long-string-keys-differing-in-the-head/depth7", "longstring-head", 7, 560)
+		mkT("seq/byte-keys-built-in-a-reused-buffer/depth7", "bytes-reused", 7, 560)
 		mkT("seq/short-string-keys/depth7", "string", 7, 560)
 	}
 	return out
@@ -219,7 +221,7 @@ func c01Jobs(tier string) []Job {
 		add(fmt.Sprintf("d/expired-unswept/%d", i), collT, expired, w, []Op{get(1), get(1)}, bound)
 	}
 	// (c) other key types with the default hash
-	for _, kt := range []string{"string", "bytes", "uint64", "longstring-tail", "longstring-head", "longbytes-tail"} {
+	for _, kt := range []string{"string", "bytes", "uint64", "longstring-tail", "longstring-head", "longbytes-tail", "bytes-reused"} {
 		c := small
 		c.KeyType = kt
 		add("c/"+kt+"/set-get", c, []Op{set(1), {K: "wait"}}, []Op{set(2), get(1)}, []Op{set(1), get(2)}, bound)
